@@ -458,6 +458,29 @@ func (m *lfsModule) forwardToBackend(ctx context.Context, conn net.Conn, payload
 	return frame.Payload, nil
 }
 
+// lfsProduceAcked checks a broker's reply to the single-record produce request
+// of the HTTP upload path: it must decode, carry at least one partition entry,
+// and every entry must be free of an error code.
+func lfsProduceAcked(respBytes []byte, version int16) error {
+	resp, err := parseProduceResponse(respBytes, version)
+	if err != nil {
+		return fmt.Errorf("invalid produce response: %w", err)
+	}
+	acked := 0
+	for _, topic := range resp.Topics {
+		for _, part := range topic.Partitions {
+			if part.ErrorCode != protocol.NONE {
+				return fmt.Errorf("broker rejected the record: error code %d", part.ErrorCode)
+			}
+			acked++
+		}
+	}
+	if acked == 0 {
+		return fmt.Errorf("produce response acknowledges no partition")
+	}
+	return nil
+}
+
 func (m *lfsModule) trackOrphans(orphans []orphanInfo) {
 	if len(orphans) == 0 {
 		return
